@@ -6,7 +6,6 @@ import (
 	"fmt"
 	"math/big"
 	"math/rand/v2"
-	"net"
 	"time"
 
 	"github.com/zmap/zcrypto/encoding/asn1"
@@ -923,4 +922,4 @@ func runRLRejections(c *core.Ctx) {
 	}
 }
 
-var _ = net.IPv4len
+
